@@ -206,6 +206,12 @@ structure State where
   nLayers : Nat
   /-- the grid's `_mesa_property_layers` / `properties` dict: name ↦ layer object -/
   attached : List (String × Nat)
+  /-- `new` only: the `PropertyDescriptor`s on the grid's cell class (`setattr(self.cell_klass, name,
+      PropertyDescriptor(layer))` / `delattr`): name ↦ the layer object the descriptor holds.  A registry of its own,
+      written by separate statements of `add_property_layer` / `remove_property_layer`; the cell attribute goes through
+      it, `grid.<name>` and `select_cells` through the dict (`C11_descriptors_are_the_layer_dict`: they never differ).
+      (`cell_klass._mesa_properties`, the third registry, is only read by pickling: C19.) -/
+  descr : List (String × Nat)
   /-- references to `layer.data` held by the user: handle ↦ (array, its shape) -/
   handles : List (Nat × (Nat × List Nat))
   /-- placed agents (insertion order) -/
@@ -228,12 +234,21 @@ def init (impl : Impl) (dims : List Nat) (cap : Nat) : State :=
     layers := fun _ => ⟨"empty", dims, 0⟩,
     nLayers := if impl = .new then 1 else 0,
     attached := if impl = .new then [("empty", 0)] else [],
+    descr := if impl = .new then [("empty", 0)] else [],
     handles := [], agents := [], inst := [], masks := [], gattrs := [] }
 
 def State.layer? (s : State) (lid : Nat) : Option Layer :=
   if lid < s.nLayers then some (s.layers lid) else none
 
 def State.named? (s : State) (name : String) : Option Nat := s.attached.lookup name
+
+/-- the layer a cell attribute goes to: the descriptor's (new) / the `properties` entry (legacy) -/
+def State.cellLayer? (s : State) (name : String) : Option Nat :=
+  if s.impl = .new then s.descr.lookup name else s.attached.lookup name
+
+/-- `setattr(cell_klass, name, PropertyDescriptor(layer))`: a class attribute is (re)bound -/
+def setDescr (d : List (String × Nat)) (name : String) (lid : Nat) : List (String × Nat) :=
+  (name, lid) :: d.filter (·.1 ≠ name)
 
 /-- the dtype of the array layer `lid` currently points to (`layer.data.dtype`) -/
 def State.dtypeOf (s : State) (lid : Nat) : DType := s.adt (s.layers lid).data
@@ -244,7 +259,9 @@ def State.namedArr? (s : State) (name : String) : Option Arr :=
 
 /-! ### creating, attaching, detaching layers -/
 
-/-- `add_property_layer`: the checks, in the order of the code -/
+/-- `add_property_layer`: the checks, in the order of the code (`hasattr(self.cell_klass, name)`: an attribute of the
+    cell class itself — a `PropertyDescriptor` left on the class would *not* count: read on the class it raises
+    `AttributeError`, which `hasattr` takes for absence) -/
 def attachCheck (s : State) (l : Layer) : Option Why :=
   match s.impl with
   | .new =>
@@ -273,7 +290,8 @@ def attach (s : State) (lid : Nat) : State × Out :=
   | some l =>
     match attachCheck s l with
     | some w => (s, .err (.value w))
-    | none => ({ s with attached := s.attached ++ [(l.name, lid)] }, .ok)
+    | none => ({ s with attached := s.attached ++ [(l.name, lid)],
+                        descr := if s.impl = .new then setDescr s.descr l.name lid else s.descr }, .ok)
 
 /-- `create_property_layer(name, default, dtype)` (legacy: construct with the grid's shape, then add);
     a rejected call leaves no reachable object behind -/
@@ -283,14 +301,16 @@ def create (s : State) (name : String) (dt : DType) (default : Int) : State × O
   | none =>
     ({ s with heap := upd s.heap s.next (fun _ => default), adt := upd s.adt s.next dt, next := s.next + 1,
               layers := upd s.layers s.nLayers ⟨name, s.dims, s.next⟩, nLayers := s.nLayers + 1,
-              attached := s.attached ++ [(name, s.nLayers)] },
+              attached := s.attached ++ [(name, s.nLayers)],
+              descr := if s.impl = .new then setDescr s.descr name s.nLayers else s.descr },
      .id s.nLayers)
 
-/-- `remove_property_layer(name)`: `KeyError` (new) / `ValueError` (legacy) if absent -/
+/-- `remove_property_layer(name)`: `KeyError` (new) / `ValueError` (legacy) if absent; then the dict entry and (new) the
+    descriptor go (`delattr` would raise if the descriptor were missing: `C11_descriptors_are_the_layer_dict` — it never is) -/
 def detach (s : State) (name : String) : State × Out :=
   match s.named? name with
   | none => (s, .err (if s.impl = .new then .key else .value .exists))
-  | some _ => ({ s with attached := s.attached.filter (·.1 ≠ name) }, .ok)
+  | some _ => ({ s with attached := s.attached.filter (·.1 ≠ name), descr := s.descr.filter (·.1 ≠ name) }, .ok)
 
 /-! ### single-cell reads and writes through the two views -/
 
@@ -309,9 +329,10 @@ def layerGet (s : State) (lid : Nat) (c : Coord) : Out :=
   | some l => if !inBounds l.dims c then .err .index else .val (s.heap l.data c)
 
 /-- the write performed by `setattr(cell, name, v)` for a cell of the grid (`new`):
-    through the descriptor if a layer of that name is attached, else into the instance dict -/
+    through the descriptor of that name on the cell class if there is one (`descriptor.layer.data[coordinate] = v`),
+    else into the instance dict -/
 def cellAttrWrite (s : State) (name : String) (c : Coord) (v : Int) : State :=
-  match s.named? name with
+  match s.descr.lookup name with
   | some lid =>
     let l := s.layers lid
     { s with heap := upd s.heap l.data ((s.heap l.data).set c v) }
@@ -338,7 +359,7 @@ def cellGet (s : State) (name : String) (c : Coord) : Out :=
   | .new =>
     if !inBounds s.dims c then .err .index
     else if name ∈ reservedNames then .err .attr
-    else match s.named? name with
+    else match s.descr.lookup name with
       | some lid => .val (s.heap (s.layers lid).data c)
       | none => match s.inst.lookup (name, c) with
         | some v => .val v
@@ -828,7 +849,7 @@ def resolveMasks (s : State) : List MaskRef → Option (List (Coord → Bool))
     under that name; without such a layer (`new`: the instance dict keeps the Python object itself) as is -/
 def State.cellWVal (s : State) (name : String) : WVal → Int
   | .raw v => v
-  | .py x => match s.named? name with
+  | .py x => match s.cellLayer? name with
     | some lid => castTo (s.dtypeOf lid) x
     | none => x.raw
 
